@@ -44,6 +44,11 @@ func init() {
 	add("c03-inside-foreign-reader", "C03.inside", dec, "func (d *D) AssertPos(pos int64) {", "func (d *D) SwapReader(br bitio.ReaderAtSeeker) {\n\td.bitBuf = br\n}\n\nfunc (d *D) AssertPos(pos int64) {", "bitbuf|(*pkg/decode.D).SwapReader")
 	// readers: a leaf reader reads the byte-rounded buffer instead of the bits asked for
 	add("c03-readers-bigint-reads-whole-bytes", "C03.readers", "pkg/decode/read.go", "\t_, err := bitio.ReadFull(d.bitBuf, buf, int64(nBits))\n\tif err != nil {\n\t\treturn nil, err\n\t}", "\t_, err := bitio.ReadFull(d.bitBuf, buf, int64(len(buf))*8)\n\tif err != nil {\n\t\treturn nil, err\n\t}", "tryBigIntEndianSign:read")
+	// sub: a convenience constructor returns the other compound kind
+	add("c03-sub-structvalue-is-array", "C03.sub", dec, "func (d *D) FieldStructValue(name string) *D {\n\treturn d.FieldStruct(name, func(d *D) {})", "func (d *D) FieldStructValue(name string) *D {\n\treturn d.FieldArray(name, func(d *D) {})", "FieldStructValue:delegates")
+	add("c03-sub-narray-elems-are-arrays", "C03.sub", dec, "\t\tfor i := int64(0); i < count; i++ {\n\t\t\td.FieldStruct(structName, fn)", "\t\tfor i := int64(0); i < count; i++ {\n\t\t\td.FieldArray(structName, fn)", "FieldStructNArray:delegates")
+	// lower: a section window accepts a seek to before its start
+	add("c03-lower-section-base", "C03.lower", "pkg/bitio/sectiontreader.go", "\tif bitOff < r.bitBase {\n\t\treturn 0, ErrOffset", "\tif bitOff < 0 {\n\t\treturn 0, ErrOffset", "(*pkg/bitio.SectionReader).SeekBits:lower-bound")
 	// generalised forms must still decide: compare-and-select minimum with the wrong direction
 	add("c03-minmax-select-wrong-way", "C03.minmax", "pkg/ranges/ranges.go", "\tminStart := min(a.Start, b.Start)\n", "\tminStart := a.Start\n\tif b.Start > minStart {\n\t\tminStart = b.Start\n\t}\n", "MinMax:start")
 }
